@@ -269,7 +269,7 @@ def run(chk: framework.Check):
                           "what": "a class referring to itself through a heterogeneous tuple (e: Optional[tuple[Self, int]]): "
                                   "Converter/dict strategy unstructures the tuple as a list (entry assumed via VERIF_F60)"})
     rng = chk.rng
-    G = gen.Gen(rng, unions=True, nt=True, enum_lits=True)
+    G = gen.Gen(rng, unions=True, nt=True, enum_lits=True, class_features=True)
     drv = lean.Driver()
     n_worlds = 400 if chk.tier == "quick" else 4000
     corr_fail = []
